@@ -424,6 +424,9 @@ fn scripted(tr: &mut Tracer, gen: &mut MoveGenerator, start: Board, moves: &[&st
         if !tr.ending(&mut board, gen) {
             return;
         }
+        if !tr.moves(&mut board) {
+            return;
+        }
     }
 }
 
@@ -467,7 +470,7 @@ fn marathon(tr: &mut Tracer, gen: &mut MoveGenerator) {
     }
 }
 
-pub const SCRIPTS: [(&str, &str, &str); 12] = [
+pub const SCRIPTS: [(&str, &str, &str); 16] = [
     ("rook-takes-rook-then-recurrence", "r3k2r/8/8/8/8/8/8/R3K2R b KQkq -", "h8g8 a1a8 e8e7 a8a7 e7e8 a7a8 e8e7 a8a7 e7e8 a7a8"),
     ("rook-takes-rook-then-recurrence-black", "r3k2r/8/8/8/8/8/8/R3K2R w KQkq -", "h1g1 a8a1 e1e2 a1a2 e2e1 a2a1 e1e2 a1a2 e2e1 a2a1"),
     ("knight-shuffle-threefold", "rnbqkbnr/pppppppp/8/8/8/8/PPPPPPPP/RNBQKBNR w KQkq -", "g1f3 g8f6 f3g1 f6g8 g1f3 g8f6 f3g1 f6g8"),
@@ -481,6 +484,11 @@ pub const SCRIPTS: [(&str, &str, &str); 12] = [
     // the third occurrence arises with the side to move in check
     ("perpetual-check", "1k6/p1p5/8/8/8/8/4Q3/7K w - -", "e2b5 b8a8 b5c6 a8b8 c6b5 b8a8 b5c6 a8b8 c6b5 b8a8"),
     ("perpetual-check-black", "7k/4q3/8/8/8/8/P1P5/1K6 b - -", "e7b4 b1a1 b4c3 a1b1 c3b4 b1a1 b4c3 a1b1 c3b4 b1a1"),
+    // an unmoved corner rook takes the unmoved corner rook, a second rook recaptures on the corner: no castling there any more
+    ("corner-rooks-trade-a", "rr2k3/8/8/8/8/8/8/R3K3 w Qq -", "a1a8 b8a8 e1e2 a8a7 e2e1 a7a8 e1e2"),
+    ("corner-rooks-trade-h", "4k2r/8/8/8/8/8/8/4K1RR b Kk -", "h8h1 g1h1 e8e7 h1h2 e7e8 h2h1 e8e7"),
+    ("corner-rooks-trade-h-w", "4k1rr/8/8/8/8/8/8/4K2R w Kk -", "h1h8 g8h8 e1e2 h8h7 e2e1 h7h8 e1e2"),
+    ("corner-rooks-trade-a-b", "r3k3/8/8/8/8/8/8/RR2K3 b Qq -", "a8a1 b1a1 e8e7 a1a2 e7e8 a2a1 e8e7"),
 ];
 
 pub fn parse_fen(fen: &str) -> Pos {
